@@ -121,7 +121,10 @@ func runC16(prop, tier string) int {
 	opts := gen.DefaultCaseOpts
 	opts.PerIface, opts.Multi = 1, 2
 	opts.Formatters = []string{""}
-	jobs := corpusJobs(work, run, treesFromEnv(n), gen.Profiles, opts, 100057)
+	// one tree in four has a source package whose files all use CRLF line endings
+	crlf := gen.ProfNaming
+	crlf.Name, crlf.CRLF = "naming-crlf", true
+	jobs := corpusJobs(work, run, treesFromEnv(n), []gen.Profile{gen.ProfGeneral, crlf, gen.ProfImports, gen.ProfGeneric}, opts, 100057)
 	runner.Parallel(len(jobs), 16, func(i int) {
 		j := jobs[i]
 		cwd := cwdOf(j.dir, j.c)
